@@ -56,6 +56,12 @@ def cases(seed, tier):
     def series(n, kind):
         if kind == "allmissing":
             return [ND] * n
+        if kind == "constant":          # degenerate residuals (MAD = 0, perfect fits)
+            return [700] * n
+        if kind == "allzero":
+            return [0] * n
+        if kind == "constgaps":
+            return [ND if (i % 3 == 1 and n > 3) else 700 for i in range(n)]
         v = [rng.randint(100, 3000) for _ in range(n)]
         if kind == "onevalid":
             j = rng.randrange(n)
@@ -67,7 +73,7 @@ def cases(seed, tier):
             return [ND if rng.random() < 0.3 else x for x in v]
         return v
 
-    kinds = ["full", "allmissing", "onevalid", "twovalid", "gaps"]
+    kinds = ["full", "allmissing", "onevalid", "twovalid", "gaps", "constant", "allzero", "constgaps"]
     sizes = [2, 3, 4, 5, 8] + ([] if quick else [13, 30])
 
     def gu(kernel, label, incontract, fn, outs):
